@@ -241,6 +241,9 @@ bool FIXReader::read(f8String& to)	// read a complete FIX message
 				if (*tag != '9')
 					throw IllegalMessage(to, FILE_LINE);
 
+				for (const char *vp(val); *vp; ++vp)	// the first BodyLength character arrived with the preamble, unchecked
+					if (!isdigit(*vp))
+						throw IllegalMessage(to, FILE_LINE);
 				const unsigned mlen(fast_atoi<unsigned>(val));
 				if (mlen == 0 || mlen > _max_msg_len - _bg_sz - _chksum_sz) // invalid msglen
 					throw InvalidBodyLength(mlen);
